@@ -92,6 +92,15 @@ func handle(p []string) (res string) {
 		return opJsonEnc(p[1:])
 	case "T", "A", "Y":
 		return "def"
+	case "unmarshalm":
+		return opUnmarshal(p[1:])
+	case "unmarshalr":
+		// only THAT the input is refused (with an error, not a panic) is reported, not at which token
+		r := opUnmarshal(p[1:])
+		if f := strings.Fields(r); len(f) > 0 && strings.HasPrefix(f[0], "I=") && strings.HasSuffix(f[0], "E") {
+			return "I=refused V=- O=ok"
+		}
+		return r
 	case "marshalm":
 		return opMarshal(p[1:])
 	case "marshal":
